@@ -460,6 +460,12 @@ def split(key, num=2):
     return impl(key, num)
 
 
+def fold_in(key, data):
+    from .prng import fold_in as impl
+
+    return impl(key, data)
+
+
 def choice(key, a, shape=(), replace=True, p=None, axis=0):
     from .prng import choice as impl
 
